@@ -12,9 +12,8 @@ E1  TLC enumerates ALL operation sequences of the bounded model (every construct
 E2  bin/walker.py turns the graphs into call sequences covering every edge; drv_seqvec replays
     them on the REAL dispenso::ConcurrentVector for the 36 trait combinations (first bucket
     1 / 2 / 4 elements x buffer pointers inline / heap x fast / compact iterators x 3 reallocation
-    strategies).  quick: every call sequence is replayed on 1/6 resp. 1/3 of the combinations
-    (rotating, so every combination sees every action and every sequence is run on >= 6
-    combinations); thorough: everything everywhere.
+    strategies).  quick: every call sequence is replayed on 1/12 (cover: 3 combinations) resp. 1/6
+    (pair: 6 combinations) of the 36 combinations, rotating; thorough: everything everywhere.
 E3  every call is one trace line (arguments, returned position / observed values, contents of both
     vectors read back through the address registry of the tracked element type, size, capacity,
     live objects, construction/destruction balance, lifetime errors, and the same call on a
